@@ -41,7 +41,7 @@ def c02Sources : List (String × String) := [
 /-- AST hash of every function Model/C17Ctx.lean transcribes, in the working tree -/
 def c17Sources : List (String × String) := [
   ("tensordict/utils.py:_as_context_manager", "ccb824c7fb187479"),
-  ("tensordict/base.py:TensorDictBase.__enter__", "0449c1acdaadb346"),
+  ("tensordict/base.py:TensorDictBase.__enter__", "b9b89de2b47d5699"),
   ("tensordict/base.py:TensorDictBase.__exit__", "8fd9c119af6132ee"),
   ("tensordict/_contextlib.py:_reverse_lock", "24dade106562b11f"),
   ("tensordict/_contextlib.py:_reverse_unlock", "03609580e469e621"),
